@@ -146,6 +146,8 @@ def check(chk: Check) -> None:
 
     # ----------------------------------------------------------------- R2, R3
     miss_sigs = set()
+    sigs_absent: set = set()
+    sigs_present: set = set()
     n_store = n_miss_ret = n_hit_ret = 0
     r2_problems: List[Tuple[str, int, str]] = []
     r3_problems: List[str] = []
@@ -186,6 +188,7 @@ def check(chk: Check) -> None:
                         if e.kind not in ('assume', 'return', 'loop_test', 'loop_skip', 'binop') and id(e) not in acc_ev
                         and not (e.kind == 'call' and e.d.get('inlined')))
             miss_sigs.add(sig)
+            (sigs_absent if cache_absent else sigs_present).add(sig)
             for k, key, e in stores:
                 n_store += 1
                 line = e.line
@@ -222,8 +225,9 @@ def check(chk: Check) -> None:
         only_a = sorted(show(x)[:80] for x in ret_absent - ret_present)
         r3_problems.append('a miss returns a different tree with a cache than without one (with: %s; without: %s): the cache is visible '
                            'in what is evaluated' % ('; '.join(only_p) or 'same', '; '.join(only_a) or 'same'))
-    if len(miss_sigs) > 1:
-        r3_problems.append('with and without a cache the parser is driven differently (%d distinct preparation sequences)' % len(miss_sigs))
+    if sigs_absent and sigs_present and sigs_absent != sigs_present:
+        r3_problems.append('with and without a cache the parser is driven differently (%d preparation sequence(s) occur only %s)' % (
+            len(sigs_absent ^ sigs_present), 'with a cache' if sigs_present - sigs_absent else 'without one'))
     where = fi.where
     for cons in ('store', 'miss return', 'hit return'):
         mine = [x for x in r2_problems if x[0].startswith(cons) or (cons == 'store' and x[0].startswith('miss without'))]
@@ -284,6 +288,7 @@ def check(chk: Check) -> None:
     chk.require(not r6, R6, q + ' :: after yacc.parse', where, '; '.join(sorted(set(r6))) or 'the tree is not touched between the parser\'s return and the cache store')
 
     _r4_r5(chk, R4, R5)
+    _r7_memo(chk)
 
 
 def _encl(F, m, node) -> str:
@@ -293,6 +298,39 @@ def _encl(F, m, node) -> str:
             if best is None or fi.node.lineno >= F.functions[best].node.lineno:
                 best = qn
     return best or m.name
+
+
+def _r7_memo(chk: Check) -> None:
+    """With a parse cache the tree of a text is built once, without one it is built on every call: the two agree only if building
+    it twice gives the same tree.  An action that takes a node out of a memo (functools.lru_cache: keyed by == and hash, bounded,
+    evicting) builds whatever an earlier, merely equal literal left there - or a fresh one after an eviction."""
+    F = chk.facts
+    R7 = chk.rule('C17.R8', 'parsing a text twice builds the same tree: no grammar action obtains a node (or a value it stores in a node) '
+                            'from a memoised function', floor=40)
+    T = C.templates(F)
+    g = C.grammar(F)
+    by_prod = {}
+    for t in T.all():
+        by_prod.setdefault(t.prod.index, []).append(t)
+    for pi, ts in sorted(by_prod.items()):
+        p = g.productions[pi]
+        problems = []
+        for t in ts:
+            for e in t.events:
+                if e.kind != 'call':
+                    continue
+                memo = None
+                if e.resolved in F.functions and common.memo_decorators(F.functions[e.resolved].node):
+                    memo = '%s (%s)' % (e.resolved, common.memo_decorators(F.functions[e.resolved].node)[0])
+                else:
+                    f = freeze(e.func)
+                    if isinstance(f, tuple) and f[:2] == ('ref', 'modvar') and len(f) == 3 and common.memo_wrapped(F, f[2]) is not None:
+                        memo = '%s (a memo around %s)' % (f[2], common.memo_wrapped(F, f[2])[1])
+                if memo:
+                    problems.append('the action goes through the memo %s: equal literals written differently (2.5 / 2.50) share an entry and '
+                                    'entries are evicted, so a second parse of the same text can build a different tree than the cached one' % memo)
+        chk.require(not problems, R7, 'action of `%s`' % p, '%s:%d' % (g.module.rel, p.line),
+                    '; '.join(sorted(set(problems))) or 'builds its node itself')
 
 
 def _r4_r5(chk: Check, R4: str, R5: str) -> None:
